@@ -249,6 +249,15 @@ def run_property(prop, tier, seed):
     level = 'proof' if (not proof_lost and not violations and n_obl > 0 and n_dis == n_obl) else 'other'
     trusted = sorted(set().union(*[r.assumed for r in results]) | set().union(*[set(c.l0) for c in selected]) if results else set())
     trusted += ['pyvc executor + SMT encoding (pyvc/*.py)', 'z3 5.1.0', 'cvc5 1.0.3']
+    # callee contracts: verified under an own contract id somewhere in the registry, or assumed (no contract has that target)
+    targets_with_contract = {c_.target for c_ in reg.by_id.values()}
+    callee_verified, callee_assumed = set(), set()
+    for c_ in selected:
+        for tgt, bc_ in (getattr(c_, 'callees', None) or {}).items():
+            if getattr(bc_, 'assumed_form', None):
+                callee_assumed.add(f'{tgt} [{bc_.assumed_form}]')
+            else:
+                (callee_verified if tgt in targets_with_contract else callee_assumed).add(tgt)
     cov = {
         'obligations': n_obl, 'discharged': n_dis,
         'checker_cmd': f'./check {prop} {tier}',
@@ -257,6 +266,8 @@ def run_property(prop, tier, seed):
                         if level == 'proof' else
                         'not every obligation was discharged this run: see proof_lost / violations; nothing is claimed proved for those'),
         'functions_under_contract': per_contract,
+        'callee_contracts_verified_under_own_id': sorted(callee_verified),
+        'callee_contracts_assumed': sorted(callee_assumed),
         'obligations_by_backend': by_backend,
         'solver_time_s': round(solver_time, 2),
         'canaries_refuted': canaries_refuted,
@@ -269,7 +280,8 @@ def run_property(prop, tier, seed):
         'rule': 'one obligation per path x clause / loop-invariant step of each function under contract',
     }
     ev = {'property_id': prop, 'tier': tier, 'seed': seed, 'level': level, 'coverage': cov,
-          'assumptions': trusted + ['callees taken by contract are assumed to meet it here and are verified under their own contract id',
+          'assumptions': trusted + ['callees taken by contract are assumed to meet it here; verified under their own contract id: ' + (', '.join(sorted(callee_verified)) or 'none'),
+                                    'callee contracts ASSUMED (the callee has no contract of its own in the registry; the form used at the call site may also be more abstract than the callee\'s own contract): ' + (', '.join(sorted(callee_assumed)) or 'none'),
                                     'Python ints are mathematical integers; floats are opaque',
                                     'no monkey-patching of taskchain classes at run time'],
           'wall_s': round(wall, 2), 'violations': len(violations)}
